@@ -229,6 +229,7 @@ def run(ctx):
     nfiles = max(1, min(16, -(-len(body) // 40))) if len(body) <= 16 * per_file else -(-len(body) // per_file)
     files = [(body[i::nfiles], recs[i::nfiles]) for i in range(nfiles) if body[i::nfiles]]
     ctx.sample({"case": violation_data(cases[30][0], cases[30][1], [], cases[30][2])})
+    large_stream(ctx)
     # ------------------------------------------------------------------ correspondence inside coqc
     mism = []
     if gen_ok:
@@ -275,8 +276,70 @@ def run(ctx):
                       {"rule_table": ctx.extra.get("rule_table")}, found_input=False)
 
 
+def large_case(name, params, prem):
+    """Build one large case, run summarize, judge it with the Python-side oracle.  -> (fails, n_cells, status)"""
+    from bermuda import Triangle
+    from harness import summ_large
+
+    cells, given = summ_large.build(name, params)
+    fails = summ_large.stored_as_given(given)
+    t = Triangle(cells)
+    status, res = S.run_impl(lambda: t.summarize(summarize_premium=prem))
+    known = []
+    fails += S.summarize_oracle(list(t.cells), prem, status, res, None, known)
+    return fails, len(cells), status
+
+
+def early_snapshot():
+    """Result of a small fixed case; taken before and after the large work (process-wide state)."""
+    from harness.coqterm import canon_tri
+
+    out = []
+    for cells, prem, _ in directed_cases()[:3] + directed_cases()[-3:]:
+        t, (status, res), _ = summarize_impl(cells, prem)
+        out.append((status, type(res).__name__ if status == "err" else canon_tri(res)))
+    return out
+
+
+def large_stream(ctx):
+    import time
+
+    from harness import summ_large
+
+    t0 = time.time()
+    before = early_snapshot()
+    for name, params, prem in summ_large.cases_c09(ctx.quick):
+        try:
+            fails, n_cells, status = large_case(name, params, prem)
+        except Exception as ex:  # noqa: BLE001  (valid large input refused while being constructed)
+            fails, n_cells, status = [f"constructing the valid large input raised {type(ex).__name__}: {ex}"], 0, "err"
+        ctx.hist(f"large:{name}")
+        ctx.hist("large:cells", n_cells)
+        ctx.count(evaluations=1)
+        ctx.nontriv(("large", name, sorted(params.items(), key=str), prem))
+        if fails:
+            ctx.violation("impl-violation", f"summarize violates C09 on a large input ({name} {params}, {n_cells} cells): {fails[0]}",
+                          {"op": "large", "name": name, "params": params, "summarize_premium": prem, "failures": fails[:5]},
+                          found_input=True)
+    if early_snapshot() != before:
+        ctx.violation("impl-violation", "the earliest small cases give a different result after the large work (process-wide state)",
+                      {"op": "large-recheck"}, found_input=True)
+    ctx.notes.append(f"large stream: {len(summ_large.cases_c09(ctx.quick))} big cases judged by the Python-side oracles only "
+                     f"(no Coq literals; the theorems are size-independent), {time.time() - t0:.1f} s")
+
+
 def replay(ctx, data):
     from bermuda import Triangle
+
+    if data.get("op") == "large":
+        fails, n, status = large_case(data["name"], data["params"], data["summarize_premium"])
+        print(f"large case {data['name']} {data['params']}: {n} cells, summarize -> {status}")
+        for f in fails:
+            print("  FAIL:", f)
+        return 1 if fails else 0
+    if data.get("op") == "large-recheck":
+        large_stream(ctx)
+        return 1 if ctx.violations else 0
 
     if data.get("op") == "build-family":
         return S.replay_family(data)
